@@ -97,15 +97,18 @@ Proof.
   assert (Hr0 : b_ready b0 = false) by reflexivity.
   clearbody b0. clear Hn Hb b.
   unfold run_step in Hr.
-  destruct (r_shutdown r && match s_until s with None => true | Some u => u <? r_now r end) eqn:E0.
+  destruct (sd_top s r && match s_until s with None => true | Some u => u <? r_now r end) eqn:E0.
   { injection Hr as <- <-. apply andb_true_iff in E0 as [E0a E0b].
+    cbn [set_cancelled s_until] in Hend.
     assert (Hnx : obm_next c b0 (ORet true ENone) = b0) by (cbn [obm_next]; rewrite Hy0; reflexivity).
     cbn [ochk_outs obm_outs]. rewrite Hnx. split; [|split; [split; assumption|apply Hend; exact Hb0]].
-    unfold ochk_all, ochk_terminate. rewrite Hnx, Hb0. change (ctx_shutdown c) with (r_shutdown r).
-    change (ctx_now c) with (r_now r). rewrite E0a. destruct (s_until s); [rewrite E0b|]; reflexivity. }
+    unfold ochk_all, ochk_terminate. rewrite Hnx, Hb0.
+    change (ctx_now c) with (r_now r). destruct (ctx_shutdown c); [|reflexivity].
+    destruct (s_until s); [rewrite E0b|]; reflexivity. }
   destruct (negb (is_some (s_until s)) && negb (r_ready r)) eqn:E1.
   { injection Hr as <- <-. apply andb_true_iff in E1 as [E1a E1b].
     apply negb_true_iff in E1a, E1b. apply is_some_false in E1a.
+    cbn [set_cancelled s_until] in Hend.
     cbn [ochk_outs obm_outs]. set (b1 := obm_next c b0 OReady).
     assert (Hnx : obm_next c b1 (ORet true EReady) = b1) by (cbn [obm_next b1 b_synced]; rewrite Hy0; reflexivity).
     rewrite Hnx. split; [|split; [split; assumption|apply Hend; exact Hb0]].
@@ -115,7 +118,7 @@ Proof.
   set (o1 := if negb (is_some (s_until s)) then [OReady] else []) in Hr.
   destruct (phase_updates (s_rep s) (s_next s) (r_now r) (s_slot s) (r_sel r)) as [[[rep next] sl] o2] eqn:Ep.
   destruct (prefer_of rep (s_until s)) as [p cur_exec] eqn:Epf.
-  set (prefer := if r_shutdown r then true else p) in Hr.
+  set (prefer := if sd_sync s r then true else p) in Hr.
   destruct (match sl with
             | Some x => let '(x', o) := xsteps x (r_sync r) in (Some x', o)
             | None => (None, [])
@@ -146,7 +149,7 @@ Proof.
   assert (Hc3 : ochk_all c b2 (OSync rep prefer true) = ""%string).
   { unfold ochk_all. change (ochk_terminate c b2 (OSync rep prefer true)) with ""%string. cbn [cat2 is_empty].
     unfold ochk_solicit. destruct rep as [|d st]; [|reflexivity].
-    destruct prefer eqn:P; [reflexivity|]. subst prefer. destruct (r_shutdown r); [discriminate|].
+    destruct prefer eqn:P; [reflexivity|]. subst prefer. destruct (sd_sync s r); [discriminate|].
     cbn in Epf. injection Epf as <- _. rewrite Hb2, P. cbn. rewrite Hrd2, (Hrd1 P). reflexivity. }
   assert (H3 : b_next b3 = next /\ b_bound b3 = until /\ b_synced b3 = true /\ b_exec b3 = cur_exec).
   { subst b3. cbn [obm_next b_next b_bound b_synced b_exec]. rewrite Hb2, Hn2. subst until.
@@ -176,7 +179,7 @@ Proof.
   assert (Hfin : forall s1 mid may e,
             forallb inert mid = true ->
             agree s1 (obm_next c b3 (ORet may e)) ->
-            (may = true -> r_shutdown r = true ->
+            (may = true -> ctx_shutdown c = true ->
                match s_until s1 with None => True | Some u => (u <? r_now r) = true end) ->
             s1 = s' -> pre ++ mid ++ [ORet may e] = o ->
             ochk_outs c b0 o = ""%string /\ agree s' (obm_outs c b0 o) /\ ochk_end c (obm_outs c b0 o) = ""%string).
@@ -185,8 +188,8 @@ Proof.
     apply ochk_outs_app; [exact Hcm|]. rewrite Hem. cbn [ochk_outs]. 
     assert (Hk : ochk_all c b3 (ORet may e) = ""%string).
     { unfold ochk_all. change (ochk_solicit c b3 (ORet may e)) with ""%string.
-      unfold ochk_terminate. destruct may; [|reflexivity]. change (ctx_shutdown c) with (r_shutdown r).
-      destruct (r_shutdown r) eqn:Sd; [|reflexivity]. specialize (Hterm eq_refl eq_refl).
+      unfold ochk_terminate. destruct may; [|reflexivity].
+      destruct (ctx_shutdown c) eqn:Sd; [|reflexivity]. specialize (Hterm eq_refl eq_refl).
       destruct Hag as [_ Hgb]. rewrite Hgb. change (ctx_now c) with (r_now r).
       destruct (s_until s1); [rewrite Hterm|]; reflexivity. }
     rewrite Hk. reflexivity. }
@@ -257,4 +260,95 @@ Qed.
 Lemma observer_ok_holds t0 evs : observer_ok t0 (trace (init t0) evs) = true.
 Proof.
   unfold observer_ok. apply is_empty_true. apply ochk_trace_gen. split; reflexivity.
+Qed.
+
+(* ---- safe shutdown, stated directly -------------------------------------------------------- *)
+
+Lemma inert_syncs_idle l : forallb inert l = true -> syncs_idle l = true.
+Proof.
+  induction l as [|o r IH]; cbn [forallb syncs_idle]; [reflexivity|]. intros H.
+  apply andb_true_iff in H as [Ho Hr]. fold (syncs_idle r). rewrite (IH Hr).
+  destruct o; try discriminate; reflexivity.
+Qed.
+
+Lemma syncs_idle_app a b : syncs_idle (a ++ b) = syncs_idle a && syncs_idle b.
+Proof. apply forallb_app. Qed.
+
+(* A Run whose second reading of ctx.Err() sees the cancelled context - because
+   it was cancelled before the Run, or during it (late) - sends its request
+   with PreferBeingIdle, on a live context.  For every state, reachable or not. *)
+Lemma run_step_syncs_idle s r : sd_sync s r = true -> syncs_idle (snd (run_step s r)) = true.
+Proof.
+  intros Hc. unfold run_step. rewrite Hc.
+  destruct (sd_top s r && match s_until s with None => true | Some u => u <? r_now r end); [reflexivity|].
+  destruct (negb (is_some (s_until s)) && negb (r_ready r)); [reflexivity|].
+  destruct (phase_updates (s_rep s) (s_next s) (r_now r) (s_slot s) (r_sel r)) as [[[rep next] sl] o2] eqn:Ep.
+  destruct (prefer_of rep (s_until s)) as [p ce].
+  destruct (match sl with
+            | Some x => let '(x', o) := xsteps x (r_sync r) in (Some x', o)
+            | None => (None, [])
+            end) as [sl4 o4] eqn:Es.
+  assert (H2 : syncs_idle o2 = true).
+  { destruct (phase_updates_obs _ _ _ _ _ _ _ _ _ Ep) as [[-> _]|(fired & o2' & -> & Hin & _)]; [reflexivity|].
+    cbn [syncs_idle forallb sync_idle andb]. apply inert_syncs_idle, Hin. }
+  assert (H4 : syncs_idle o4 = true).
+  { apply inert_syncs_idle. destruct sl as [x|]; [|injection Es as _ <-; reflexivity].
+    destruct (xsteps x (r_sync r)) as [x' o'] eqn:Ex. injection Es as _ <-. eapply xsteps_inert; exact Ex. }
+  assert (Hfin : forall tl, syncs_idle tl = true ->
+            syncs_idle (((if negb (is_some (s_until s)) then [OReady] else [])
+                         ++ o2 ++ [OSync rep (if true then true else p) true] ++ o4) ++ tl) = true).
+  { intros tl Ht. rewrite !syncs_idle_app, H2, H4, Ht. destruct (negb (is_some (s_until s))); reflexivity. }
+  assert (Hstop : forall tl, syncs_idle tl = true -> syncs_idle (stop_outs sl4 ++ tl) = true).
+  { intros tl Ht. rewrite syncs_idle_app, Ht, (inert_syncs_idle _ (stop_outs_inert sl4)). reflexivity. }
+  destruct (r_reply r) as [|[ts|] ds]; cbn [snd]; try (apply Hfin; reflexivity).
+  destruct ds; cbn [snd]; try (apply Hfin; try apply Hstop; reflexivity).
+  destruct ce; cbn [snd]; apply Hfin; reflexivity.
+Qed.
+
+(* Once the context is cancelled it stays cancelled, and every request from
+   then on asks to be left idle. *)
+Lemma trace_after_cancel evs : forall s, s_cancelled s = true -> all_syncs_idle (trace s evs) = true.
+Proof.
+  induction evs as [|e rest IH]; intros s Hc; cbn [trace]; [reflexivity|].
+  destruct (step s e) as [s' o] eqn:Es. cbn [all_syncs_idle forallb i_outs]. fold (all_syncs_idle (trace s' rest)).
+  assert (H : syncs_idle o = true /\ s_cancelled s' = true).
+  { destruct e as [r|x]; cbn [step] in Es.
+    - assert (Hs : sd_sync s r = true) by (unfold sd_sync, sd_top; rewrite Hc; reflexivity).
+      pose proof (run_step_syncs_idle s r Hs) as H1. destruct (run_step_ret_cancelled s r) as [_ H2].
+      rewrite Es in H1, H2. cbn [fst snd] in H1, H2. rewrite H2. auto.
+    - destruct (s_slot s) as [sl|].
+      + destruct (xstep sl x) as [sl' o'] eqn:Ex. injection Es as <- <-. cbn [s_cancelled].
+        split; [apply inert_syncs_idle; eapply xstep_inert; exact Ex|exact Hc].
+      + injection Es as <- <-. auto. }
+  destruct H as [H1 H2]. rewrite H1, (IH _ H2). reflexivity.
+Qed.
+
+Lemma trace_app a : forall s b, trace s (a ++ b) = trace s a ++ trace (run s a) b.
+Proof.
+  induction a as [|e r IH]; intros s b; cbn [app trace run]; [reflexivity|].
+  destruct (step s e) as [s' o]. cbn [fst app]. rewrite IH. reflexivity.
+Qed.
+
+Lemma trace_length evs : forall s, List.length (trace s evs) = List.length evs.
+Proof.
+  induction evs as [|e r IH]; intros s; cbn [trace List.length]; [reflexivity|].
+  destruct (step s e) as [s' o]. cbn [List.length]. rewrite IH. reflexivity.
+Qed.
+
+(* From the Run in which shutdown began (the context was cancelled before it,
+   or during it before the request was built) onwards, every request of the
+   history asks to be left idle and is sent on a live context - whatever the
+   later events claim about the context. *)
+Lemma safe_shutdown_holds t0 pre r post :
+  r_shutdown r || r_late r = true ->
+  all_syncs_idle (skipn (List.length pre) (trace (init t0) (pre ++ ERun r :: post))) = true.
+Proof.
+  intros Hr. rewrite trace_app, <- (trace_length pre (init t0)), skipn_app, skipn_all, Nat.sub_diag.
+  cbn [app skipn trace]. set (s := run (init t0) pre).
+  destruct (step s (ERun r)) as [s' o] eqn:Es. cbn [step] in Es.
+  assert (Hs : sd_sync s r = true).
+  { unfold sd_sync, sd_top. rewrite <- orb_assoc, Hr. apply orb_true_r. }
+  pose proof (run_step_syncs_idle s r Hs) as H1. destruct (run_step_ret_cancelled s r) as [_ H2].
+  rewrite Es in H1, H2. cbn [fst snd] in H1, H2. rewrite Hs in H2.
+  cbn [all_syncs_idle forallb i_outs]. rewrite H1. apply (trace_after_cancel post s' H2).
 Qed.
